@@ -24,7 +24,11 @@ RULE = ("seeded generator of advanceBlockchain / updateAncestorBlock requests: 1
 RULE_ADDED = (
               'Also: 15% of the headers of a request come from a pool of headers already sent on '
               'that manager, in either role (block / brother); a fifth of the cases over the SGX / '
-              'TCPSigner transport ')
+              'TCPSigner transport '
+              ' '
+              'Round 10: 12% of the cases preceded by an advance / update that came to nothing '
+              '(refused by the device, timed out, last block garbage); compressed coinbases cla'
+              'iming 2^29..2^60 bytes already hashed. ')
 RULE = RULE + " " + RULE_ADDED.strip()
 ASSUMPTIONS = [
     "simulated device + fake transports trusted; the device follows framing only",
